@@ -214,3 +214,81 @@ Theorem C06_fetch_loop_two_pass_fillnull : forall v eof_with all,
     /\ concat l = map (fill_row v (batch_cols [] (concat all))) (concat all).
 Proof. exact fetch_loop_fillnull_stream. Qed.
 Print Assumptions C06_fetch_loop_two_pass_fillnull.
+
+(* ==== one or several upstream streams: the plan of SetupQueryParallelism ==== *)
+
+(* commands that need the whole input (level-A form of the two-pass commands) *)
+Theorem C06_whole_input_command_meets_spec : forall g bs, run (whole_cmd g) bs = g (concat bs).
+Proof. exact whole_spec. Qed.
+Print Assumptions C06_whole_input_command_meets_spec.
+
+(* any two-pass processor (bin without span, fillnull without fields) under the Fetch loop:
+   every row is transformed with the summary of the WHOLE input, for any batching *)
+Theorem C06_fetch_loop_two_pass : forall t eof_with all,
+  exists l, dp_run (twopass_proc t) twopass_flags eof_with all = Some l
+    /\ concat l = tp_sem t (concat all).
+Proof. exact fetch_loop_twopass. Qed.
+Print Assumptions C06_fetch_loop_two_pass.
+
+(* CanParallelSearch over the flags the New*DP constructors declare: the chain is split only
+   in front of an order-insensitive aggregation (stats sort top rare timechart) and only over
+   row-wise commands; never over head/dedup/streamstats/tail, a generator, or a two-pass
+   command *)
+Theorem C06_planner_splits_only_rowwise_before_aggregation : forall ks i,
+  can_parallel (map flags_of ks) = (true, i) ->
+  nth_error ks i = Some KAgg /\ Forall (fun k => k = KRowwise) (firstn i ks).
+Proof. exact planner_sound. Qed.
+Print Assumptions C06_planner_splits_only_rowwise_before_aggregation.
+
+(* for such a chain (row-wise front fs, aggregation over a commutative monoid) and EVERY way of
+   dealing the rows to any number of streams, in any order and any batching, the parallel plan
+   (per-chain partial aggregates merged by the merger DP) = the single chain *)
+Theorem C06_parallel_plan_equals_single_stream :
+  forall (m : monoid) (inj : row -> mcar m) (render : mcar m -> batch),
+  (forall a b c, mop m a (mop m b c) = mop m (mop m a b) c) ->
+  (forall a, mop m (mzero m) a = a) -> (forall a, mop m a (mzero m) = a) ->
+  (forall a b, mop m a b = mop m b a) ->
+  forall (fs : list (row -> list row)) (streams : list (list batch)) (bs : list batch),
+  Permutation (concat (map (@concat row) streams)) (concat bs) ->
+  parallel_stats_plan m inj render fs streams = single_stats_plan m inj render fs bs.
+Proof. exact parallel_stats_plan_equiv. Qed.
+Print Assumptions C06_parallel_plan_equals_single_stream.
+
+(* Full statement (FALSE, see the two _refuted theorems): a two-pass command may be cloned per
+   stream:  forall t streams, tp_split_sem t streams = tp_sem t (concat streams).
+   Proved under the exact guard: every stream's own summary transforms its rows like the
+   summary of the whole input — which the planner cannot know, so it must not split. *)
+Theorem C06_two_pass_split_guarded : forall t streams,
+  (forall s r, In s streams -> In r s ->
+     tp_apply t (tp_summary t s) r = tp_apply t (tp_summary t (concat streams)) r) ->
+  tp_split_sem t streams = tp_sem t (concat streams).
+Proof. exact twopass_split_guarded. Qed.
+Print Assumptions C06_two_pass_split_guarded.
+
+Example C06_two_pass_split_guard_satisfiable :
+  tp_split_sem (bin_tp flat 2) [bin_s1 ++ bin_s2; bin_s2 ++ bin_s1]
+  = tp_sem (bin_tp flat 2) (concat [bin_s1 ++ bin_s2; bin_s2 ++ bin_s1]).
+Proof. exact twopass_split_guard_example. Qed.
+
+(* bin lat bins=2 over streams {0,50} and {1000,1050}: one chain bins with span 1000
+   (0-1000, 1000-2000), two chains each with span 100 (0-100, 1000-1100) *)
+Theorem C06_bin_auto_span_split_refuted :
+  tp_sem (bin_tp flat 2) (bin_s1 ++ bin_s2)
+    = map (fun s => [(flat, VStr s)]) [ [48;45;49;48;48;48]; [48;45;49;48;48;48];
+                                        [49;48;48;48;45;50;48;48;48]; [49;48;48;48;45;50;48;48;48] ]
+  /\ tp_split_sem (bin_tp flat 2) [bin_s1; bin_s2]
+    = map (fun s => [(flat, VStr s)]) [ [48;45;49;48;48]; [48;45;49;48;48];
+                                        [49;48;48;48;45;49;49;48;48]; [49;48;48;48;45;49;49;48;48] ]
+  /\ tp_split_sem (bin_tp flat 2) [bin_s1; bin_s2] <> tp_sem (bin_tp flat 2) (concat [bin_s1; bin_s2]).
+Proof. exact bin_split_refuted_thm. Qed.
+Print Assumptions C06_bin_auto_span_split_refuted.
+
+(* fillnull value=0 over streams {a=1} and {b=2}: one chain fills b resp. a, two chains fill nothing *)
+Theorem C06_fillnull_all_columns_split_refuted :
+  tp_sem (fillnull_tp (VStr [48])) (fn_s1 ++ fn_s2)
+    = [ [(fa, VNum 1); (fb, VStr [48])]; [(fb, VNum 2); (fa, VStr [48])] ]
+  /\ tp_split_sem (fillnull_tp (VStr [48])) [fn_s1; fn_s2] = [ [(fa, VNum 1)]; [(fb, VNum 2)] ]
+  /\ tp_split_sem (fillnull_tp (VStr [48])) [fn_s1; fn_s2]
+     <> tp_sem (fillnull_tp (VStr [48])) (concat [fn_s1; fn_s2]).
+Proof. exact fillnull_split_refuted_thm. Qed.
+Print Assumptions C06_fillnull_all_columns_split_refuted.
